@@ -9,5 +9,6 @@ CONSTANTS
   SerialReg = FALSE
   MaxBatch = 0
   RetryEnds = TRUE
+  MaxAck = 0
 INVARIANTS AllGone NoCrash
 CHECK_DEADLOCK FALSE
